@@ -70,7 +70,7 @@ enum Probe {
   PR_realloc_inplace, PR_realloc_moved, PR_zero_checked, PR_visit_checked, PR_alloc_null,
   PR_os_refused, PR_arena_alloc, PR_os_segment_alloc, PR_thread_data_cache_hit, PR_use_delayed_spin,
   PR_segment_purge_by_time, PR_arena_purge_by_time, PR_misuse_detected, PR_census, PR_giveback_checked,
-  PR_hugetlb_mmap, PR_hugetlb_madvise, PR_pinned_arena,
+  PR_hugetlb_mmap, PR_hugetlb_madvise, PR_pinned_arena, PR_arenas_8plus,
   PR__COUNT
 };
 extern const char* const probe_names[PR__COUNT];
